@@ -308,6 +308,12 @@ func finish(c *Ctx, prop, tier string, seed int, rules []*Rule, selftest map[str
 	if selftest != nil {
 		cov["selftest"] = selftest
 	}
+	if len(c.NormNotes) > 0 {
+		cov["normal_form"] = c.NormNotes
+		for _, n := range c.NormNotes {
+			fmt.Println(n)
+		}
+	}
 	ev := evidence{PropertyID: prop, Tier: tier, Seed: seed, Level: "other", Coverage: cov,
 		Assumptions: assumptions[prop], WallS: time.Since(start).Seconds(), Violations: len(unlisted)}
 	if ev.Assumptions == nil {
